@@ -63,6 +63,9 @@ const FRAG: usize = 12;
 struct RModel {
   reliable: bool,
   base: i64,
+  /// base of the most recent ACKNACK (lower than `base` after a regressing one: whether that takes an
+  /// acknowledgment back is not defined, so the bound check counts such samples as possibly unacknowledged)
+  cur: i64,
   /// samples this reader still needs (matched reliable readers only)
   needs: BTreeSet<i64>,
   /// requested by ACKNACK and not yet answered
@@ -131,6 +134,7 @@ impl Model for M {
           sim.acknack(*r, *base, set);
           if let Some(m) = rm.get_mut(r) {
             m.base = m.base.max(*base);
+            m.cur = *base;
             m.needs = m.needs.split_off(base);
             m.pending_req = m.pending_req.split_off(base);
             let (first, last) = sim.first_last();
@@ -286,7 +290,7 @@ impl Model for M {
       }
       // ---- (bound) after a cleaning tick
       if matches!(ev, Ev::Clean) {
-        let unacked_from: i64 = rm.values().filter(|m| m.reliable).map(|m| m.base.max(1)).min().unwrap_or(i64::MAX);
+        let unacked_from: i64 = rm.values().filter(|m| m.reliable).map(|m| m.base.min(m.cur).max(1)).min().unwrap_or(i64::MAX);
         let acked_retained = history.iter().filter(|s| **s < unacked_from).count();
         comparisons += 1;
         obs.push(format!("CLEAN acked_retained-limit={}", acked_retained as i64 - self.limit() as i64));
@@ -357,6 +361,15 @@ impl Model for M {
             next.push(Ev::Ack(*r, b, vec![last, last + 1]));
           }
         }
+        // a base below an earlier one (a reader that lost state, or a reordered ACKNACK): what it requests is a
+        // request for an advertised sequence number like any other
+        let low = m.base - 1;
+        if low >= first.max(1) && low <= last {
+          next.push(Ev::Ack(*r, low, vec![low]));
+          if last > low {
+            next.push(Ev::Ack(*r, low, vec![low, last]));
+          }
+        }
       }
       next.push(Ev::Lose(*r));
     }
@@ -380,7 +393,7 @@ impl Model for M {
     let digest = format!(
       "{} ## {:?} w{:?} t{} b{}",
       sim.digest(),
-      rm.iter().map(|(r, m)| (*r, m.reliable, m.base, m.needs.clone(), m.pending_req.clone(), m.frag_got.clone())).collect::<Vec<_>>(),
+      rm.iter().map(|(r, m)| (*r, m.reliable, m.base, m.cur, m.needs.clone(), m.pending_req.clone(), m.frag_got.clone())).collect::<Vec<_>>(),
       written,
       nticks,
       burst_done
@@ -506,7 +519,7 @@ pub fn run(tier: &str) -> i32 {
     rep.absorb_bfs(&m.cfg.name.clone(), &m.describe(), &bcfg, st);
     rep.machinery_errors.extend(errs);
   }
-  rep.set("alphabet", json!("Write, WriteBig (3 fragments), WriteTo(r) for matched and for currently unmatched r, Burst(40), Ack(r, base in {prev, prev+1, first, last+1}, set in {{}, {base}, {base,last}}), Match(r), Lose(r), HbTick, Repair(r)/RepairFrags(r) when armed, Clean"));
+  rep.set("alphabet", json!("Write, WriteBig (3 fragments), WriteTo(r) for matched and for currently unmatched r, Burst(40), Ack(r, base in {prev, prev+1, first, last+1} and the regressing prev-1, set in {{}, {base}, {base,last}, {last,last+1}}), Match(r), Lose(r), HbTick, Repair(r)/RepairFrags(r) when armed, Clean"));
   rep.assumptions = vec![
     "Puppet readers are truthful: ACKNACK bases never decrease and never exceed last+1 (C03 is the property about that)".into(),
     "Timers are modelled: SendRepairData(r) is offered exactly while rp.repair_mode, SendRepairFrags(r) exactly while fragments are requested (the re-arm rules of Writer::handle_timed_event), heartbeat tick and cache cleaning at any time".into(),
